@@ -7,9 +7,9 @@ Extraction Language OCaml.
 Cd "../_build/extract".
 Extraction "model.ml"
   run_model exec_op exec_sop run_ops build_world std_files fds_list procs_list heap_list disp_list pipes_list files_list
-  sys_pipe sys_getfd sys_setfd sys_getfl sys_setfl sys_close sys_dup2 sys_read sys_write sys_poll
+  sys_pipe sys_dupfd sys_getfd sys_setfd sys_getfl sys_setfl sys_close sys_dup2 sys_read sys_write sys_poll
   sys_open sys_chdir sys_getcwd sys_fileno sys_getrlimit fork_pre fork_post sys_fork sys_execvp sys__exit
-  sys_child_done sys_waitpid sys_kill sys_sigfillset sys_sigemptyset sys_sigaction sys_sigmask sys_clock
+  sys_child_done sys_waitpid sys_waitpid_nohang sys_kill sys_sigfillset sys_sigemptyset sys_sigaction sys_sigmask sys_clock
   sys_malloc sys_calloc sys_strdup sys_free sys_realloc get_environ set_environ get_errno
   advance_to user_close user_cloexec take_runs w_add_note opres_code note_child_op curp get_proc
   parse_options parse_redirect parse_stop_actions expiry_pure parse_status path_is_relative
